@@ -24,9 +24,10 @@ from pbt.engine import Skip, Sub
 
 ID = "C08"
 RULE = (
-    "Hypothesis draws a scene: interior 3..5 cells per axis plus PML layers; each axis either a periodic/Bloch "
-    "pair (random phase) or two independent faces from {zero halo, PEC, PMC, PML(2..3 cells, default or "
-    "kappa/alpha-graded)}; uniform or rectilinear grid; background + 0..2 boxes with isotropic / diagonal / full "
+    "Hypothesis draws a scene: interior 3..5 cells per axis plus PML layers (half of the scenes cubic overall); the "
+    "three axes take, in random assignment, the roles periodic/Bloch pair (random phase), PML-backed axis (PML 2..3 "
+    "cells, default or kappa/alpha-graded, opposite face PML/PEC/PMC/zero halo) and wall axis (PEC/PMC/zero halo), "
+    "one scene in five without a periodic axis; uniform or rectilinear grid; background + 0..2 boxes with isotropic / diagonal / full "
     "SPD-tensor eps and mu and optional scalar/diagonal/full sigma_E, sigma_H (cells under a plane source stay "
     "isotropic, as fdtdx requires); optional per-cell material factor field; 1..2 sources from {uniform plane, "
     "Gaussian plane (random axis, direction, in-plane polarisation, optional tilt, optional partial extent), "
@@ -206,27 +207,44 @@ def case_strategy(draw, ctx):
     want_plane = flavour == "plane_pml" or (flavour != "tensor" and draw(st.booleans())) or (
         flavour == "tensor" and draw(st.integers(0, 3)) == 0)
     # ---- boundaries and shape -------------------------------------------------------------------
-    faces = draw(scenes.faces_strategy(kinds=("none", "pec", "pmc", "pml", "periodic"), pml_thickness=(2, 3),
-                                       allow_bloch=True))
-    if flavour == "plane_pml" and not any(f["kind"] == "pml" for f in faces.values()):
-        ax = draw(st.integers(0, 2))
-        side = draw(st.sampled_from(["min", "max"]))
-        other = "max" if side == "min" else "min"
-        faces[f"{side}_{AX[ax]}"] = {"kind": "pml", "thickness": draw(st.integers(2, 3))}
-        if faces[f"{other}_{AX[ax]}"]["kind"] in ("periodic", "bloch"):
-            faces[f"{other}_{AX[ax]}"] = {"kind": draw(st.sampled_from(["none", "pec", "pmc", "pml"]))}
-            if faces[f"{other}_{AX[ax]}"]["kind"] == "pml":
-                faces[f"{other}_{AX[ax]}"]["thickness"] = draw(st.integers(2, 3))
-    for f in faces.values():
-        if f["kind"] == "pml" and draw(st.integers(0, 2)) == 0:
-            f["pml_kwargs"] = draw(st.sampled_from([
-                {"kappa_end": 3.0}, {"kappa_start": 1.0, "kappa_end": 2.0, "kappa_order": 2.0},
-                {"alpha_start": 0.05, "alpha_end": 0.0, "sigma_order": 2.0}]))
-    shape = []
+    # Every scene is dense in axis-specific code paths: the three axes get three different roles (in random
+    # assignment): a periodic/Bloch pair, a PML-backed axis, and an axis closed by walls / zero halo.
+    roles = draw(st.permutations(["pair", "absorb", "walls"]))
+    if draw(st.integers(0, 4)) == 0:  # sometimes no periodic axis at all
+        roles = [r if r != "pair" else draw(st.sampled_from(["absorb", "walls"])) for r in roles]
+    faces = {}
     for ax in range(3):
-        thick = sum(faces[f"{s}_{AX[ax]}"].get("thickness", 0) for s in ("min", "max")
-                    if faces[f"{s}_{AX[ax]}"]["kind"] == "pml")
-        shape.append(draw(st.integers(3, 5)) + thick)
+        lo_name, hi_name = f"min_{AX[ax]}", f"max_{AX[ax]}"
+        if roles[ax] == "pair":
+            kind = draw(st.sampled_from(["bloch", "bloch", "bloch", "periodic"]))
+            faces[lo_name], faces[hi_name] = {"kind": kind}, {"kind": kind}
+            continue
+        if roles[ax] == "absorb":
+            pair = [{"kind": "pml"}, {"kind": draw(st.sampled_from(["pml", "pec", "pmc", "none"]))}]
+        else:
+            pair = [{"kind": draw(st.sampled_from(["pec", "pmc"]))},
+                    {"kind": draw(st.sampled_from(["pec", "pmc", "none", "none"]))}]
+        if draw(st.booleans()):
+            pair.reverse()
+        faces[lo_name], faces[hi_name] = pair
+    if flavour == "plane_pml" and not any(f["kind"] == "pml" for f in faces.values()):
+        ax = next(a for a in range(3) if roles[a] != "pair")
+        faces[f"{draw(st.sampled_from(['min', 'max']))}_{AX[ax]}"] = {"kind": "pml"}
+    for f in faces.values():
+        if f["kind"] == "pml":
+            f["thickness"] = draw(st.sampled_from([2, 2, 3]))
+            if draw(st.integers(0, 2)) == 0:
+                f["pml_kwargs"] = draw(st.sampled_from([
+                    {"kappa_end": 3.0}, {"kappa_start": 1.0, "kappa_end": 2.0, "kappa_order": 2.0},
+                    {"alpha_start": 0.05, "alpha_end": 0.0, "sigma_order": 2.0}]))
+    thick = [sum(faces[f"{sd}_{AX[ax]}"].get("thickness", 0) for sd in ("min", "max")) for ax in range(3)]
+    if draw(st.booleans()):
+        # cube: the three orientations share all full-array shapes (their eager placement ops then hit the in-process
+        # compile cache, ~2x cheaper); boxes, layers, sources and detectors still have unequal extents
+        n = max(thick) + draw(st.integers(3, 4))
+        shape = [n, n, n]
+    else:
+        shape = [draw(st.integers(3, 5)) + thick[ax] for ax in range(3)]
     interior = scenes.interior_range(shape, faces)
     has_bloch = any(f["kind"] == "bloch" for f in faces.values())
     grid = draw(scenes.grid_strategy(shape, faces, kinds=("uniform", "uniform", "uniform", "uniform", "rect")))
@@ -313,7 +331,7 @@ def case_strategy(draw, ctx):
             "faces": faces, "background": background, "objects": objects, "sources": sources,
             "detectors": detectors}
     if has_bloch:
-        spec["bloch_phase"] = [draw(st.sampled_from([0.0, 0.7, 1.9, -2.4, 3.14159])) for _ in range(3)]
+        spec["bloch_phase"] = [draw(st.sampled_from([0.7, 1.9, -2.4, 3.14159, 0.7, -1.1, 0.0])) for _ in range(3)]
     mode = draw(st.sampled_from(["stepped", "stepped", "run_fdtd"]))
     if mode == "run_fdtd":  # zero initial fields: make sure the first source actually radiates
         sources[0]["switch"] = {}
@@ -492,6 +510,6 @@ def _normalise(spec):
 
 SUBS = [
     Sub(name="orientations", body=body, strategy=lambda ctx: case_strategy(ctx), quick=5, thorough=400,
-        lanes=("f64", "f32"), f32_fraction=0.25, quick_shards=2,
+        lanes=("f64", "f32"), f32_fraction=0.25, quick_shards=2, max_seconds_quick=600.0,
         rule="three cyclic orientations of a random scene; fields and raw detector records permute"),
 ]
